@@ -265,6 +265,16 @@ def special_bool():
         ('and', None, (('forall', (('i0', B.INT), ('i1', B.INT)), (le,)),
                        ('exists', (('i1', B.INT), ('p0', B.BOOL)),
                         (('and', None, (le, p)),)), p)),
+        # a block renamed only in part, then a later sibling binding the
+        # un-renamed variable again
+        ('and', None, (p, ('exists', (PB, QB), (('and', None, (p, q)),)),
+                       ('forall', (QB,), (('or', None, (q, r_)),)))),
+        ('or', None, (p, ('forall', (PB, QB), (('or', None, (p, N(q))),)),
+                      ('exists', (QB,), (('and', None, (q, r_)),)),
+                      ('exists', (QB, RB), (('iff', None, (q, r_)),)))),
+        ('and', None, (le, ('exists', (('i0', B.INT), ('i1', B.INT)), (
+            ('lt', None, (i0, i1)),)),
+            ('forall', (('i1', B.INT),), (('le', None, (i0, i1)),)))),
     ]
     return out
 
@@ -306,8 +316,13 @@ def propagate_cases(rng, n):
                         'lt': ('lt', None, (o, v))}[rel]
             if rng.random() < 0.5:
                 body = ('or', None, (body, B.Sym('p0', B.BOOL)))
-            atoms.append((rng.choice(['exists', 'forall']), (v[1],),
-                          (body,)))
+            qf_ = (rng.choice(['exists', 'forall']), (v[1],), (body,))
+            if rng.random() < 0.4:
+                # the binder sits below another quantifier / connective
+                w = rng.choice([s_ for s_ in syms if s_ is not v] or syms)
+                qf_ = (rng.choice(['exists', 'forall']), (w[1],), (
+                    ('or', None, (qf_, ('eq', None, (w, o)))),))
+            atoms.append(qf_)
         if rng.random() < 0.3:
             # a nested conjunction and a non-toplevel equality
             atoms.append(('and', None, (('eq', None, (syms[0], syms[1])),
